@@ -24,14 +24,22 @@ func splitParams(v reg) (reg, reg) { return ((v >> 16) & 0xffff) - 32768, (v & 0
 
 func (i *instruction) String(g *lookup) string {
 	var p []string
+	// an operand that should name a global may be out of range for code that fails later at run time (a type tag
+	// whose fields overflowed): the dump renders it instead of indexing the name table with it
+	key := func(n int) string {
+		if n < 0 || n >= g.Len() {
+			return fmt.Sprintf("?%d", n)
+		}
+		return g.Key(n)
+	}
 	p = append(p, i.Code.String())
 	switch i.Code {
 	case codePush, codeReturn, codeJumpFalse, codeJumpTrue, codeJump, codeIncDec, codeAnd, codeOr, codeStruct:
 		p = append(p, fmt.Sprint(i.A))
 	case codeGlobalGet, codeGlobalSet, codeConst, codeGlobalRef, codeGetAttr, codeSetAttr, codeGlobalFunc, codeGlobalStruct:
-		p = append(p, g.Key(int(i.A)))
+		p = append(p, key(int(i.A)))
 	case codeGlobalZero:
-		p = append(p, g.Key(int(i.A)), Type(i.B).str(g))
+		p = append(p, key(int(i.A)), Type(i.B).str(g))
 	case codeLocalGet, codeLocalSet:
 		p = append(p, "$"+fmt.Sprint(i.A))
 	case codeLocalZero:
@@ -39,20 +47,20 @@ func (i *instruction) String(g *lookup) string {
 	case codeLocalIncDec, codeFastGetInt, codeFastSetInt, codeRange:
 		p = append(p, "$"+fmt.Sprint(i.A), fmt.Sprint(i.B))
 	case codeFastGet, codeFastSet, codeFastGetAttr, codeFastSetAttr:
-		p = append(p, "$"+fmt.Sprint(i.A), g.Key(int(i.B)))
+		p = append(p, "$"+fmt.Sprint(i.A), key(int(i.B)))
 	case codeLocalAdd, codeLocalMul, codeLocalSub, codeLocalDiv:
 		p = append(p, "$"+fmt.Sprint(i.A), "$"+fmt.Sprint(i.B))
 	case codeFastCallAttr:
 		c1, c2 := splitParams(i.C)
-		p = append(p, "$"+fmt.Sprint(i.A), g.Key(int(i.B)), fmt.Sprintf("%d:%d", c1, c2))
+		p = append(p, "$"+fmt.Sprint(i.A), key(int(i.B)), fmt.Sprintf("%d:%d", c1, c2))
 	case codeNewStruct:
-		p = append(p, g.Key(int(i.A)), fmt.Sprint(i.B))
+		p = append(p, key(int(i.A)), fmt.Sprint(i.B))
 	// case codeNewLocalStruct:
 	// 	p = append(p, "$"+fmt.Sprint(i.A), fmt.Sprint(i.B))
 	case codeSetMethod:
-		p = append(p, g.Key(int(i.A)))
+		p = append(p, key(int(i.A)))
 	case codeFastCall:
-		p = append(p, g.Key(int(i.A)), fmt.Sprint(i.B), fmt.Sprint(i.C))
+		p = append(p, key(int(i.A)), fmt.Sprint(i.B), fmt.Sprint(i.C))
 	case codeNewSlice:
 		p = append(p, Type(i.A).str(g), fmt.Sprint(i.B))
 	case codeNewMap:
